@@ -10,7 +10,7 @@ META = {
     "engine": "ValueLit",
     "technique": "TLA+ reference parsers for JSON (RFC 8259) and for the ECMAScript literal subset (validity AND denoted abstract value, numbers through an exact decimal normal form) + Abs(descriptor) = the data encoding/json semantics assign to a Go value (tags, omitempty, '-', embedded structs, sorted map keys, []byte as base64, nil -> null, time.Time) + a branch-by-branch transcription of showInJS/showInJSON, model-checked by TLC over a bounded space of value descriptors; the same descriptors and seeded random ones are built by reflection, rendered by real templates in four JS/JSON contexts, and every rendered literal is parsed and judged by the TLC Trace spec",
     "level": "model_checking",
-    "level_text": "TLC validates the two reference parsers (a corpus of 140 texts with known status, 38 equal/different denotation pairs, and Parse(Print(v)) = v for two independent reference printers on every abstract value of the space) and checks, for every value descriptor of depth <= 2 (quick) / 3 (thorough) and fan-out <= 2 over a 45-leaf menu (nil, booleans, boundary ints of 8 Go types, 1.5, 1e21, 5e-324, max floats, float32, NaN, +-Inf, -0, strings with quotes/</script>/U+2028/non-BMP/NUL, 7 times, pointers, []byte) and a menu of Go containers ([]any, [N]any, typed slices/arrays, map[string|int|bool]any, 6 struct types with json tags/omitempty/'-'/embedded fields), that the transcription of showInJS/showInJSON renders one valid literal denoting Abs(descriptor), except for five named causes found in the tree. The same descriptors plus seeded random ones are built by reflection as real Go values, shown through Template.Run in <script>, .js, .json and <script type=application/ld+json>, and TLC parses each real output with the reference parser and compares the denoted value with Abs(descriptor).",
+    "level_text": "TLC validates the two reference parsers (a corpus of 122 texts with known status, 38 equal/different denotation pairs, and Parse(Print(v)) = v for two independent reference printers on every abstract value of the space) and checks, for every value descriptor of depth <= 2 (quick) / 3 (thorough) and fan-out <= 2 over a 45-leaf menu (nil, booleans, boundary ints of 8 Go types, 1.5, 1e21, 5e-324, max floats, float32, NaN, +-Inf, -0, strings with quotes/</script>/U+2028/non-BMP/NUL, 7 times, pointers, []byte) and a menu of Go containers ([]any, [N]any, typed slices/arrays, map[string|int|bool]any, 6 struct types with json tags/omitempty/'-'/embedded fields), that the transcription of showInJS/showInJSON renders one valid literal denoting Abs(descriptor), except for five named causes found in the tree. The same descriptors plus seeded random ones are built by reflection as real Go values, shown through Template.Run in <script>, .js, .json and <script type=application/ld+json>, and TLC parses each real output with the reference parser and compares the denoted value with Abs(descriptor).",
     "level_note": "Trusted: TLC, the Json community module, the Go driver (builds the value by reflection from the descriptor, cross-checks struct field names/tags against the descriptor, renders, strips the fixed text around the slot, logs - no parsing or expected value in Go). Numbers are compared as exact decimals (digits + exponent), not as IEEE doubles: a renderer printing non-shortest digits of the same float64 would be flagged and is then settled by the oracle guard (encoding/json, consulted only for records the TLA+ judge has failed). The JS reference covers literals only (null, booleans, numbers, NaN/Infinity, strings, arrays, objects, new Date(ISO string | integer ms)); any other expression is 'undef' (skipped, counted). Objects are compared as member sets; key order is demanded only for maps in JavaScript context. JavaScript context accepts both readings of a nil []byte (null or \"\") and of embedded structs (promoted or nested). Not covered: values of types implementing JSStringer/JSONStringer/json.Marshaler/error, Stringer map keys, named byte-slice types, cyclic values, strings that are not valid UTF-8 (reference undefined), map[bool] in JSON (encoding/json has no data for it).",
     "design_ref": "7/C08",
 }
@@ -45,7 +45,7 @@ PAR = max(2, min(8, rig.NCPU // 2))
 ORACLE_DECIDES = {"different-data", "nil-byte-slice-as-empty-string", "embedded-struct-not-flattened", "time-subsecond-dropped"}
 QUICK_ALL_CTX = 120        # quick tier: descriptors 1..120 (leaves, first containers) in all four contexts, the rest in two
 RULE = ("every value descriptor of depth <= Depth with fan-out <= 2 over the leaf and container menus of MC_ValueLit.tla (exported "
-        "by TLC; thorough: every ordered pair of leaves in every container kind) x 4 contexts (<script>, .js, .json, "
+        "by TLC; thorough: three pairings of the leaves instead of one, depth 3) x 4 contexts (quick: the two secondary contexts only for the first 120 descriptors) (<script>, .js, .json, "
         "<script type=application/ld+json>), plus seeded random nested descriptors (random ints of 11 Go types, floats with <= 15 "
         "significant digits, strings, times, typed/untyped containers, the 6 registered struct types) x 4 contexts; "
         "non-trivial = the rendered literal is a container, a string with an escape, a Date, or a number with more than 3 digits")
@@ -167,7 +167,9 @@ def run(ctx, replay_case=None):
         rig.write_ndjson(cases, [dict(replay_case, id=1)])
     else:
         rig.write_cfg(wd / "MC_ValueLit.cfg", constants=consts, invariants=MC_INVS)
-        r = ctx.tlc(wd, "MC_ValueLit", workers=4, timeout=ctx.pick(300, 800), coverage=not ctx.quick)
+        # (no -coverage: the verdicts are computed as TLC constants, where coverage mode disables TLC's caching of
+        #  LET-bound values - measured 14 min and out of memory; non-vacuity is the ASSUME on the occurring verdicts)
+        r = ctx.tlc(wd, "MC_ValueLit", workers=4, timeout=ctx.pick(300, 800))
         ctx.cov.update(states=r.distinct, transitions=r.generated, mc_wall_s=round(r.wall, 1), mc_invariants=MC_INVS,
                        bounds=json.dumps(consts, sort_keys=True))
         occ = [p for p in r.printed if "verdicts occurring" in p]
@@ -179,8 +181,6 @@ def run(ctx, replay_case=None):
                 ctx.cov["model_counterexample"] = {"invariants": r.invariant_violated, "tlc_out": str(wd / "MC_ValueLit.out")}
             else:
                 raise Infra(f"MC_ValueLit failed: {wd}/MC_ValueLit.out\n" + rig.tail(r.out, 30))
-        if not ctx.quick:
-            ctx.cov["actions_never_taken"] = r.coverage_zero()
         if not cases.exists():
             raise Infra("no cases.ndjson exported by MC_ValueLit")
         if ctx.quick:
